@@ -137,6 +137,8 @@ type Client struct {
 	// Exchanges started by the gateway (PUBLISH QoS 2). The gateway chooses
 	// their message IDs independently of ours: a store of their own.
 	brokerTransactions *transactions.TransactionStore
+	// Serializes sending (incl. the changes of a packet which is resent).
+	sendLock sync.Mutex
 }
 
 // NewClient sets up a new client according to the provided configuration.
